@@ -421,6 +421,15 @@ func c16NullSafe(c *Ctx, d *Dispatcher) {
 					}
 				}
 				wantErr := null && assert
+				if null && !assert && !reads && len(r.Returns) > 0 {
+					// `null.k`: answering null without reading is the same thing
+					reads = true
+					for _, ret := range r.Returns {
+						if !isNilConst(ret.Results[0]) || !isNilConst(ret.Results[1]) {
+							reads = false
+						}
+					}
+				}
 				c.R.Check(rule, fmt.Sprintf("assert-form:null=%v,assert=%v", null, assert), pos, allErr == wantErr && reads == !wantErr, fmt.Sprintf("base null=%v, `!.`=%v: error=%v (expected %v), member read=%v (expected %v): `x!.k` is an error exactly when x is null, plain `.` never is", null, assert, allErr, wantErr, reads, !wantErr))
 			}
 		}
